@@ -3,6 +3,8 @@ import os
 import shutil
 import struct
 
+import math
+
 import numpy as np
 
 from vfw import boot, observe
@@ -93,8 +95,11 @@ def gen_value(rng):
     if k == 5:
         return float(rng.choice([-0.0, 0.0, 5e-324, 2.2250738585072014e-308, 1.7976931348623157e308, -1.7976931348623157e308,
                                  0.1 + 0.2, 1 / 3, 2 / 3, 1e22, 1e23, 1e16, 123456789.12345678, 4.04 * 1.0000000000000002, 3.0, -7.0]))
-    if k in (6, 7):
+    if k == 6:
         return float(rng.normal() * 10 ** rng.uniform(-8, 8))
+    if k == 7:
+        # the result of numpy arithmetic: a numpy.float64 (a float as far as isinstance goes); tagged, because the replay file is JSON
+        return {"np.float64": float(rng.normal() * 10 ** rng.uniform(-8, 8) * math.sqrt(2.0))}
     if k == 8:
         return float(np.nextafter(rng.uniform(0, 10), 100))
     while True:
@@ -218,8 +223,20 @@ def observe_state(ctx, obj, model, step, op):
     return ok
 
 
+def decode(v):
+    """undo the JSON tagging of numpy scalars (see gen_value)"""
+    if isinstance(v, dict):
+        if list(v) == ["np.float64"]:
+            return np.float64(v["np.float64"])
+        return {k: decode(x) for k, x in v.items()}
+    if isinstance(v, list):
+        return [decode(x) for x in v]
+    return v
+
+
 def case_sequence(ctx, p):
     mon, P = ctx.mon, ctx.P
+    p = dict(p, init=decode(p["init"]), ops=decode(p["ops"]))
     obj = P.parameters(**p["init"])
     model = Model()
     for k, v in p["init"].items():
